@@ -45,6 +45,7 @@ type c03Case struct {
 	Layers     []c03Layer   `json:"layers"`
 	ConfigSize int          `json:"config_size"` // -1 = no config
 	Prior      int          `json:"prior"`       // 0 empty store, 1 older version of the tag present, 2 leftovers of an interrupted download
+	NoPrune    bool         `json:"noprune,omitempty"`  // the server runs with OLLAMA_NOPRUNE=1 (a pull then leaves the layers of the replaced version alone)
 	TornOld    int          `json:"torn_old,omitempty"` // prior 1: the stored manifest as a kill leaves it while it is rewritten: 1 empty, 2 cut in half
 	OldLayers  []c03Layer   `json:"old_layers,omitempty"`
 	PartLayer  int          `json:"part_layer,omitempty"`
@@ -121,6 +122,7 @@ func c03Gen(t *rapid.T) c03Case {
 	}
 	c.ConfigSize = rapid.SampledFrom([]int{-1, 2, 50, 300}).Draw(t, "config")
 	c.Prior = rapid.SampledFrom([]int{0, 0, 1, 2, 2}).Draw(t, "prior")
+	c.NoPrune = rapid.IntRange(0, 4).Draw(t, "noprune") == 0
 	if c.Prior == 1 {
 		c.OldLayers = rapid.SliceOfN(rapid.Custom(c03GenLayer), 1, 3).Draw(t, "old_layers")
 		c.TornOld = rapid.SampledFrom([]int{0, 0, 0, 1, 2}).Draw(t, "torn_old")
@@ -282,6 +284,10 @@ func c03Run(t *testing.T, c c03Case, rec *vfkit.Recorder) (info c03Info, err err
 	dir = frModelsDir(dir)
 	os.Setenv("OLLAMA_MODELS", dir)
 	os.Unsetenv("OLLAMA_NOPRUNE")
+	if c.NoPrune {
+		os.Setenv("OLLAMA_NOPRUNE", "1")
+		defer os.Unsetenv("OLLAMA_NOPRUNE")
+	}
 	name := c03Names[c.Name%len(c03Names)]
 	mp := ParseModelPath(name)
 	key := mp.GetNamespaceRepository() + ":" + mp.Tag
@@ -290,6 +296,9 @@ func c03Run(t *testing.T, c c03Case, rec *vfkit.Recorder) (info c03Info, err err
 	undo := frInstall(reg)
 	defer undo()
 	cls := map[string]bool{}
+	if c.NoPrune {
+		cls["noprune"] = true
+	}
 
 	synctest.Test(t, func(st *testing.T) {
 		fail := func(f string, a ...any) {
